@@ -237,7 +237,7 @@ def main(argv):
     if len(argv) != 4:
         print("usage: annotate.py <src.c> <table.ann|-> <out.c>", file=sys.stderr)
         return 2
-    src = open(argv[1]).read()
+    src = open(argv[1], encoding='latin-1').read()
     table = open(argv[2]).read() if argv[2] != '-' else ''
     try:
         out, applied = annotate(src, table)
@@ -247,7 +247,7 @@ def main(argv):
     if strip(out) != src:
         print("annotate: strip-identity check failed for %s" % argv[1], file=sys.stderr)
         return 2
-    open(argv[3], 'w').write(out)
+    open(argv[3], 'w', encoding='latin-1').write(out)
     for a in applied:
         print("annotated: " + a)
     return 0
